@@ -76,6 +76,7 @@ type PureFunc struct {
 	PSorts  []Sort // optional explicit sorts for ghost funcs with abstract types
 	RSort   Sort
 	Heapdep bool // ghost function depends on heap state (reads): gets state args
+	Opaque  bool
 }
 
 type Lemma struct {
@@ -463,6 +464,13 @@ func (S *Specs) parseLines(lines []rawLine, ctx *PkgCtx, pkgShort string, extern
 			}
 		case "ghost":
 			S.parsePure(l, strings.TrimPrefix(rest, "func "), ctx, true, fail)
+		case "opaque":
+			// opaque func: a heap-independent pure function kept behind an uninterpreted symbol with a
+			// pattern-guarded defining axiom, so quantified invariants see an atom, not its (regex) body
+			S.parsePure(l, strings.TrimPrefix(rest, "func "), ctx, false, fail)
+			if m := rePureHdr.FindStringSubmatch(strings.TrimPrefix(rest, "func ")); m != nil && S.Pure[m[1]] != nil {
+				S.Pure[m[1]].Opaque = true
+			}
 		case "nooverflow":
 			if cur != nil {
 				cur.NoOverflow = true
@@ -758,7 +766,7 @@ func resolveTypeExpr(ctx *PkgCtx, e ast.Expr) (types.Type, error) {
 }
 
 var directiveWords = map[string]bool{"import": true, "package": true, "func": true, "extern": true, "props": true, "trusted": true,
-	"pure": true, "ghost": true, "nooverflow": true, "interference": true, "requires": true, "ensures": true, "ensures-local": true, "ensures-ghost": true, "modifies": true,
+	"pure": true, "ghost": true, "opaque": true, "nooverflow": true, "interference": true, "requires": true, "ensures": true, "ensures-local": true, "ensures-ghost": true, "modifies": true,
 	"loop": true, "callback": true, "at": true, "lemma": true, "global": true}
 
 func startsWithDirective(body string) bool {
